@@ -88,6 +88,9 @@ def run(chk, repo, tier):
     P9 = chk.rule('P9', 'record editing never drops a line break when it drops items', floor=2)
     C04b.run_p9(chk, P9, repo)
     C04b.run_p10_p11(chk, repo)
+    P12 = chk.rule('P12', 'ThetaRecord.update: the parameter cursor advances by the repeat count (value)xN of each theta',
+                   floor=1)
+    C04b.theta_cursor(chk, P12, repo)
 
     tm = repo.module(f'{NM}.records.theta_record')
     om = repo.module(f'{NM}.records.omega_record')
